@@ -65,7 +65,8 @@ class ZoneNamesEncoder(
         if isinstance(message, ZoneNamesRequest):
             return 0 if message.zone_number == "ALL" else 1
 
-        length_fields_size = len(message.zone_names)  # One byte per zone name
+        # Zone number and name length: two bytes per zone name
+        length_fields_size = 2 * len(message.zone_names)
         # Length calculation requires the string to be encoded twice, but we
         # don't expect to encode this message very often.
         return reduce(
